@@ -34,17 +34,22 @@ def main(argv):
     except ImportError as e:
         print("no check for %s: %s" % (pid, e))
         return 2
+    obj = None
+    if replay:
+        obj = json.load(open(replay))
+        # a case is a function of (check, tier, seed): the recorded run is re-executed on the current tree
+        seed = int(obj.get("seed", seed))
+        tier = obj.get("tier", tier)
+        os.environ.setdefault("VERIF_OUT_DIR", os.path.join(os.environ.get("TMPDIR", "/tmp"), "verif-replay-out"))
     ctx = Ctx(pid, tier, seed, level=LEVELS.get(pid, "exploration"))
     try:
-        if replay:
-            obj = json.load(open(replay))
-            if not hasattr(mod, "replay"):
-                print("replay not supported for %s; re-running the check" % pid)
-                mod.run(ctx)
-            else:
-                mod.replay(ctx, obj)
+        if replay and hasattr(mod, "replay"):
+            mod.replay(ctx, obj)
         else:
             mod.run(ctx)
+        if replay:
+            keys = {k for k, _, _ in ctx.violations} | set(ctx.known_seen)
+            print("REPLAY %s: key %s %s on the current tree" % (pid, obj.get("key"), "REPRODUCED" if obj.get("key") in keys else "not reproduced"))
         return ctx.finish()
     except HarnessError as e:
         print("HARNESS-ERROR %s: %s" % (pid, e))
